@@ -280,7 +280,11 @@ func runParent(e *Engine, tier string, seed uint64, par int) int {
 						} else {
 							// the checkpointed result may lag behind: evaluations are taken from the log
 							res.Evaluations = last - lo
-							res.Violations = append(res.Violations, Violation{Case: last, Sig: "fatal", Detail: map[string]interface{}{
+							fsig := "fatal"
+							if e.ClassifyFatal != nil {
+								fsig = e.ClassifyFatal(head(out, 60000))
+							}
+							res.Violations = append(res.Violations, Violation{Case: last, Sig: fsig, Detail: map[string]interface{}{
 								"exit": code, "output_head": head(out, 3000)}})
 							res.Counts["fatal_cases"]++
 							next = last + 1
